@@ -107,7 +107,13 @@ def dfxp_strategy(tier):
         text = draw(_authored())
         enc = _encode(text, draw, _XML_NAMED, "<&")
         wrapped = False
-        if draw(st.integers(0, 3)) == 0:
+        cdata = False
+        if "]]>" not in text and draw(st.integers(0, 7)) == 0:
+            # the same characters, spelled as a CDATA section (whole run or its second half)
+            k = draw(st.sampled_from([0, len(text) // 2]))
+            enc = _encode(text[:k], draw, _XML_NAMED, "<&") + "<![CDATA[" + text[k:] + "]]>"
+            cdata = True
+        elif draw(st.integers(0, 3)) == 0:
             enc, wrapped = _wrap(enc, draw)
         tag = draw(st.sampled_from([None, None, None, "it", "plain", "nested", "bold"]))
         if tag == "it":
@@ -121,7 +127,7 @@ def dfxp_strategy(tier):
         comment = draw(st.integers(0, 7)) == 0
         if comment:     # a comment displays nothing
             enc = enc + draw(st.sampled_from(["<!-- note -->", "<!--x-->", "<!-- a & b < c -->"]))
-        return {"text": text, "enc": enc, "wrapped": wrapped, "tag": tag, "comment": comment}
+        return {"text": text, "enc": enc, "wrapped": wrapped, "tag": tag, "comment": comment, "cdata": cdata}
 
     @st.composite
     def build(draw):
@@ -158,7 +164,7 @@ def _nontrivial(case):
     for c in case["cues"]:
         for l in c["lines"]:
             for r in l["runs"]:
-                if r.get("tag") or r.get("wrapped") or r.get("comment") or r["enc"] != r["text"] or "&" in r["text"]:
+                if r.get("tag") or r.get("wrapped") or r.get("comment") or r.get("cdata") or r["enc"] != r["text"] or "&" in r["text"]:
                     return True
     return False
 
@@ -188,6 +194,7 @@ def _reader(cls, fmt, case, rec):
 def _compare(caps, exp, fmt, doc):
     require(len(caps) == len(exp), lambda: f"{fmt}: {len(caps)} captions for {len(exp)} cues: {doc[:500]!r}")
     for i, (c, e) in enumerate(zip(caps, exp)):
+        require(c is not None, lambda: f"{fmt}: caption {i} of the returned list is None; document: {doc[:700]!r}")
         got = model.norm_lines(model.cue_lines_py(c))
         e = [x for x in e if x]
         require(got == e, lambda: f"{fmt}: cue {i} reads {got!r}, authored text displays as {e!r}; document: {doc[:700]!r}")
@@ -234,8 +241,9 @@ def _wrap_at_tag_boundary(case):
         for l in c["lines"]:
             runs, seps = l["runs"], l["seps"]
             for i in range(len(runs) - 1):
-                left = runs[i].get("tag") or runs[i].get("comment")
-                right = runs[i + 1].get("tag")
+                # (a CDATA section is a text node of its own: its edges are boundaries too)
+                left = runs[i].get("tag") or runs[i].get("comment") or runs[i].get("cdata")
+                right = runs[i + 1].get("tag") or runs[i + 1]["enc"].startswith("<![CDATA[")
                 if seps[i][:1] in ("\n", "\r") and (left or right):
                     return True
                 # a white-space-only text node holding a wrap, between two tags / comments
